@@ -12,6 +12,9 @@ correspondence (recorded, never an alarm: laziness is not an output).
 Case format (old cases — `typed: bool`, `lazy: bool` — still replay):
   names, schema ("list" | "tuple" | "typed" | "aliased" | "dicts"), aliases (per column, for
   "aliased"), lazy (False | "gen" | "iter" | "map"), rows, ops, read.
+Pass 5: cells may be markers ({"__tuple__": [...]}, {"__pydict__": {...}}, {"__pyset__": [...]}, {"__nan__": true}; see
+`cell_py` / `canon` / `strict`); steps `biter s size` (open a to_batches generator: a register), `bnext r k` (pull up to
+k batches from it), `fetch s how` (fetchone / fetchmany / fetchall on a materialised frame, value not compared).
 """
 import itertools
 import re
@@ -24,12 +27,104 @@ LAZY_RESULT = ("filter", "take", "select")  # generator-backed results
 CONSUMES_LAZY_SOURCE = ("filter", "take", "query", "select", "distinct")  # iterate _rows without materialising
 OP_LEN = {"head": (3,), "tail": (3,), "slice": (4,), "filter": (3, 4), "take": (3, 4), "query": (3,), "select": (3, 4),
           "distinct": (2,), "add": (3,), "batches": (3,), "collect": (6,), "row": (3,), "len": (3,), "append": (3,),
-          "iter": (2,), "next": (3,), "zip": (3,), "hash": (2,)}
-MATERIALISES_SOURCE = ("head", "tail", "slice", "batches", "collect", "row", "len", "hash", "iter")
+          "iter": (2,), "next": (3,), "zip": (3,), "hash": (2,), "biter": (3,), "bnext": (3,), "fetch": (3,)}
+MATERIALISES_SOURCE = ("head", "tail", "slice", "batches", "collect", "row", "len", "hash", "iter", "biter")
 SCHEMAS = ("list", "tuple", "typed", "aliased", "dicts")
 # collect limits at the numeric boundaries of the compiled collector's `int limit` parameter (compiled.pyx signature)
 BIG_LIMITS = [2**31 - 1, 2**31, 2**31 + 7, 2**63 - 1, 2**63, 10**30, -(2**31) - 1, -(2**63) - 1, True, False]
 LAZIES = ("gen", "iter", "map")
+
+
+# ----------------------------------------------------------------------------- cells
+#
+# A case is JSON; cells that JSON cannot tell apart travel as markers: {"__tuple__": [...]}, {"__pydict__": {...}},
+# {"__pyset__": [...]}, {"__nan__": true}.  `cell_py` builds the Python value the frame holds; `canon` is the value up to
+# Python equality (bool / integral float -> int, a tuple is not a list, a dict is its items whatever their order, the
+# one NaN object equals itself by identity) - the harness's rendering of `Frame.pyKey` (Model/FrameCell.lean), which the
+# Lean driver applies to the `raw` cells it is sent; the model's results are compared with `canon` of the mirror's; `strict` tells apart what Python
+# equality does not (1 / True / 1.0): the first row of each class of equal rows is the one that has to be kept.
+
+NAN = float("nan")  # one object: rows holding it are equal by identity, as in `x in seen` / `x in list`
+
+
+def cell_py(x):
+    if isinstance(x, list):
+        return [cell_py(v) for v in x]
+    if isinstance(x, dict):
+        if len(x) != 1:
+            raise ValueError("bad cell marker")
+        (k, v), = x.items()
+        if k == "__tuple__" and isinstance(v, list):
+            return tuple(cell_py(y) for y in v)
+        if k == "__pydict__" and isinstance(v, dict):
+            return {kk: cell_py(y) for kk, y in v.items()}
+        if k == "__pyset__" and isinstance(v, list) and all(isinstance(y, (int, str)) for y in v):
+            return set(v)
+        if k == "__nan__" and v is True:
+            return NAN
+        raise ValueError("bad cell marker")
+    if isinstance(x, float) and x != x:
+        return NAN
+    if x is None or isinstance(x, (bool, int, float, str)):
+        return x
+    raise ValueError("bad cell")
+
+
+def canon(v):
+    if isinstance(v, bool):
+        return int(v)
+    if isinstance(v, float):
+        if v != v:
+            return {"__nan__": 1}  # (only the one NaN object is generated: equal to itself by identity)
+        if v not in (float("inf"), float("-inf")) and v == int(v):
+            return int(v)
+        return v
+    if isinstance(v, list):
+        return [canon(x) for x in v]
+    if isinstance(v, tuple):
+        return {"__tuple__": [canon(x) for x in v]}
+    if isinstance(v, dict):
+        return {"__pydict__": {k: canon(v[k]) for k in sorted(v)}}
+    if isinstance(v, (set, frozenset)):
+        return {"__pyset__": sorted((canon(x) for x in v), key=repr)}
+    return v
+
+
+def raw(v):
+    """The cell as it travels to the Lean driver, which keys it itself (`Frame.pyKey`, Model/FrameCell.lean: bool and
+    integral floats -> int, dict entries sorted); tuples / dicts / sets / the NaN object as markers.  The members of
+    a set (scalars) are keyed and sorted here."""
+    if isinstance(v, float) and v != v:
+        return {"__nan__": 1}
+    if isinstance(v, list):
+        return [raw(x) for x in v]
+    if isinstance(v, tuple):
+        return {"__tuple__": [raw(x) for x in v]}
+    if isinstance(v, dict):
+        return {"__pydict__": {k: raw(x) for k, x in v.items()}}
+    if isinstance(v, (set, frozenset)):
+        return canon(v)
+    return v
+
+
+def strict(v):
+    if isinstance(v, (list, tuple)):
+        return [type(v).__name__] + [strict(x) for x in v]
+    if isinstance(v, dict):
+        return ["dict"] + [[k, strict(x)] for k, x in v.items()]
+    if isinstance(v, (set, frozenset)):
+        return [type(v).__name__] + sorted((strict(x) for x in v), key=repr)
+    if isinstance(v, float):
+        return ["float", repr(v)]
+    return [type(v).__name__, v]
+
+
+def cell_kind(x):
+    if isinstance(x, list):
+        return "list"
+    if isinstance(x, dict):
+        return next(iter(x)).strip("_")
+    return type(x).__name__
 
 
 def schema_of(case):
@@ -135,8 +230,8 @@ class Track:
     def step(self, op, result_kind, typed_of=None, has_iter=()):
         """Apply `op`; False when the program is outside the scope (uses a spent frame, appends at the wrong time)."""
         k = op[0]
-        if k == "next":
-            ok = self.st[op[1]] == "iter"
+        if k in ("next", "bnext"):
+            ok = self.st[op[1]] == ("iter" if k == "next" else "biter")
             self.st.append(None)
             return ok
         s = op[1]
@@ -150,7 +245,7 @@ class Track:
             self.sibling_uses = getattr(self, "sibling_uses", 0) + 1  # a frame that has an unread selection is used again
         if k in MATERIALISES_SOURCE:
             self.materialise(s)
-            res = "eager" if k in FRAME_OPS else ("iter" if k == "iter" else None)
+            res = "eager" if k in FRAME_OPS else (k if k in ("iter", "biter") else None)
         elif k == "select":
             res = "lazy" if x == "eager" else ("defer", s)
         elif k in ("filter", "take"):
@@ -174,6 +269,10 @@ class Track:
                 self.materialise(s)
                 self.materialise(t)
             res = "eager" if (k == "add" and result_kind == "frame") else None
+        elif k == "fetch":
+            # the DB-API reads move the frame's cursor only; on a frame that is not a list yet the cursor *is* the
+            # generator the rows come from (C04's subject), so the step is applied to materialised frames only
+            ok = x == "eager"
         elif k == "append":
             ok = x == "eager" and not (typed_of and typed_of[s]) and s not in has_iter and not any(self.unread(i) for i in range(len(self.st)))
         else:
@@ -193,7 +292,7 @@ def track_case(case, mirror=None):
     ok = True
     for i, op in enumerate(case["ops"]):
         ok = t.step(op, mirror[i + 1][0], typed_of, has_iter) and ok
-        if op[0] == "iter":
+        if op[0] in ("iter", "biter"):
             has_iter.add(op[1])
         typed_of.append(op[0] in FRAME_OPS and op[0] != "select" and typed_of[op[1]])
     after = t.copy()
@@ -229,6 +328,13 @@ def mirror_step(res, op):
     if k == "next":
         if f[0] != "iter":
             raise InfraError("source is not an iterator")
+        out = f[1][f[2] : f[2] + op[2]]
+        f[2] += len(out)
+        return ["val", out]
+    if k == "bnext":
+        # a batching is the list of the batches of the rows its frame held when it was opened, and a position of its own
+        if f[0] != "biter":
+            raise InfraError("source is not a batching")
         out = f[1][f[2] : f[2] + op[2]]
         f[2] += len(out)
         return ["val", out]
@@ -295,6 +401,10 @@ def mirror_step(res, op):
         return ["val", None]
     if k == "iter":
         return ["iter", list(rows), 0]
+    if k == "biter":
+        return ["biter", [rows[i : i + op[2]] for i in range(0, n, op[2])], 0, op[2], n]
+    if k == "fetch":
+        return ["val", None]
     if k == "zip":
         g = res[op[2]]
         return ["val", [[a, b] for a, b in zip(rows, g[3])]]
@@ -302,7 +412,7 @@ def mirror_step(res, op):
 
 
 def run_mirror(case):
-    res = [["frame", list(case["names"]), kind_of(case), [list(r) for r in case["rows"]]]]
+    res = [["frame", list(case["names"]), kind_of(case), [[cell_py(x) for x in r] for r in case["rows"]]]]
     for op in case["ops"]:
         if op[0] == "append":  # in-place: only the target frame changes
             f = res[op[1]]
@@ -333,11 +443,20 @@ def tolist(x):
 
     if isinstance(x, numpy.ndarray):
         return [tolist(v) for v in x.tolist()] if x.dtype != object else [tolist(v) for v in x]
-    if isinstance(x, (tuple, list)):
-        return [tolist(v) for v in x]
     if isinstance(x, numpy.generic):
         return x.item()
-    return x
+    return x  # a cell (a tuple stays a tuple)
+
+
+def table_tolist(x, depth):
+    """The value of collect / __getitem__: `depth` levels of arrays / sequences, then cells (kept as they are)."""
+    import numpy
+
+    if depth == 0:
+        return x.item() if isinstance(x, numpy.generic) else x
+    if isinstance(x, numpy.ndarray) and x.dtype != object:
+        return tolist(x)
+    return [table_tolist(v, depth - 1) for v in x]
 
 
 def make_base(case):
@@ -345,7 +464,7 @@ def make_base(case):
     from orso import DataFrame
     from orso.schema import FlatColumn, RelationSchema
 
-    rows = [tuple(r) for r in case["rows"]]
+    rows = [tuple(cell_py(x) for x in r) for r in case["rows"]]
     names = list(case["names"])
     sk = schema_of(case)
     lz = lazy_of(case)
@@ -390,6 +509,37 @@ def arg_form(values, form, what="names"):
     raise InfraError("bad argument form %r" % (form,))
 
 
+class Batching:
+    """One `to_batches` generator.  A generator function runs nothing until it is first advanced, so the first batch is
+    pulled when the batching is opened (that is when `to_batches` materialises the frame and evaluates its range)
+    and handed out with the first pull; every later batch is pulled when asked for."""
+
+    def __init__(self, df, size):
+        self.gen = df.to_batches(size)
+        self.held = []
+        self._pull_into(self.held)
+
+    def _pull_into(self, out):
+        if self.gen is None:
+            return False
+        try:
+            b = next(self.gen)
+        except StopIteration:
+            self.gen = None
+            return False
+        out.append([list(r) for r in b])
+        return True
+
+    def pull(self, k):
+        out = []
+        while len(out) < k:
+            if self.held:
+                out.append(self.held.pop(0))
+            elif not self._pull_into(out):
+                break
+        return out
+
+
 def run_impl(case, after):
     """`after`: the tracker after the program (which frames are spent). Returns per step ('frame', df) / ('val', v) / ('err', cls) / ('iter', it) plus bookkeeping for reading frames."""
     frames = [("frame", make_base(case))]
@@ -400,7 +550,7 @@ def run_impl(case, after):
         k = op[0]
         si = op[1]
         srcs = [si] + ([op[2]] if k in ("add", "zip") else [])
-        want = "iter" if k == "next" else "frame"
+        want = {"next": "iter", "bnext": "biter"}.get(k, "frame")
         if any(frames[s_][0] != want for s_ in srcs):
             # an earlier step failed on the implementation (already reported there)
             frames.append(("err", "SourceUnavailable"))
@@ -426,15 +576,16 @@ def run_impl(case, after):
             elif k == "add":
                 out = ("frame", df + frames[op[2]][1])
             elif k == "batches":
-                out = ("val", [[list(r) for r in b] for b in df.to_batches(op[2])])
+                held = list(df.to_batches(op[2]))  # all batches first, read afterwards: a batch is a frame of its own
+                out = ("val", [[list(r) for r in b] for b in held])
             elif k == "collect":
                 use_getitem = op[3] is None and not op[5]
                 if op[4] == "single":
                     got = df[op[2][0]] if use_getitem else df.collect(op[2][0], op[3])
-                    out = ("val", [tolist(got)])
+                    out = ("val", [table_tolist(got, 1)])
                 else:
                     got = df[list(op[2])] if use_getitem else df.collect(list(op[2]), op[3])
-                    out = ("val", tolist(got))
+                    out = ("val", table_tolist(got, 2))
             elif k == "append":
                 # A generator-backed frame that has not been read yet would see (or not see) the new row
                 # depending on when it is read; the statement does not say which, so such programs are
@@ -464,6 +615,17 @@ def run_impl(case, after):
                 out = ("val", got)
             elif k == "zip":
                 out = ("val", [[list(a), list(b)] for a, b in zip(df, frames[op[2]][1])])
+            elif k == "biter":
+                out = ("biter", Batching(df, op[2]))
+            elif k == "bnext":
+                out = ("val", df.pull(op[2]))
+            elif k == "fetch":
+                # a DB-API read between two uses: what it returns is C04's subject, here it must not disturb anything
+                try:
+                    [df.fetchone, lambda: df.fetchmany(2), df.fetchall][op[2] % 3]()
+                except Exception:
+                    pass  # ("Cannot use fetchone and append on the same DataFrame")
+                out = ("val", None)
             else:
                 raise InfraError("bad op " + repr(op))
         except InfraError:
@@ -494,7 +656,7 @@ def read_frame(df, how):
         first = next(it, None)
         del it
         rows = [list(r) for r in df]
-        if (first is None) != (not rows) or (first is not None and list(first) != rows[0]):
+        if (first is None) != (not rows) or (first is not None and strict(list(first)) != strict(rows[0])):
             peek = ["first row of an abandoned iteration", None if first is None else list(first)]
     names = list(df.column_names)
     return names, rows, len(df), df.rowcount, df.shape, peek
@@ -502,6 +664,7 @@ def read_frame(df, how):
 
 def model_line(case):
     ops = []
+    bsize = {}
     for op in case["ops"]:
         if op[0] == "collect":
             ops.append(["collect", op[1], op[2], int(op[3]) if isinstance(op[3], bool) else op[3]])
@@ -509,13 +672,26 @@ def model_line(case):
             ops.append(list(op[:3]))
         elif op[0] == "len":
             ops.append(["len", op[1], op[2] % 3])
+        elif op[0] == "biter":
+            # a batching of size b is the row iterator of its frame read b rows at a time (C03.batching_is_chunked_iteration)
+            ops.append(["iter", op[1]])
+            bsize[len(ops)] = op[2]
+        elif op[0] == "bnext":
+            ops.append(["next", op[1], op[2] * bsize[op[1]]])
+        elif op[0] == "fetch":
+            ops.append(["hash", op[1]])  # a read that returns nothing of interest and leaves a materialised frame as it is
+        elif op[0] == "append":
+            ops.append(["append", op[1], raw([cell_py(x) for x in op[2]])])
+        elif op[0] == "query" and len(op[2]) == 3:
+            ops.append(["query", op[1], [op[2][0], op[2][1], raw(cell_py(op[2][2]))]])
         else:
             ops.append(list(op))
     # the reads after the program are program steps too (every read materialises): the machine and the scope of
     # the refinement theorem cover them
     for i in track_case(case)[2]:
         ops.append(["len", i, 0])
-    return "C03 prog " + wire.line(case["names"], kind_of(case), aliases_of(case), base_is_lazy(case), case["rows"], ops)
+    return "C03 prog " + wire.line(case["names"], kind_of(case), aliases_of(case), base_is_lazy(case),
+                                  [raw([cell_py(x) for x in r]) for r in case["rows"]], ops)
 
 
 def valid_case(c):
@@ -534,6 +710,9 @@ def valid_case(c):
                 return False
         if sk == "dicts" and not c["rows"]:
             return False
+        for r in c["rows"]:
+            for x in r:
+                cell_py(x)  # raises on a malformed cell marker (the shrinker makes them)
         nres = 1
         kinds = ["frame"]
         typed_of = [kind_of(c) == "typed"]
@@ -542,7 +721,7 @@ def valid_case(c):
             if not isinstance(op, list) or len(op) < 2 or not isinstance(op[1], int) or not (0 <= op[1] < nres):
                 return False
             k = op[0]
-            if kinds[op[1]] != ("iter" if k == "next" else "frame"):
+            if kinds[op[1]] != {"next": "iter", "bnext": "biter"}.get(k, "frame"):
                 return False
             ln = OP_LEN.get(k)
             if ln is None or len(op) not in ln:
@@ -551,7 +730,7 @@ def valid_case(c):
                 return False
             if k == "slice" and (not isinstance(op[2], int) or not (op[3] is None or (isinstance(op[3], int) and op[3] >= 0))):
                 return False
-            if k == "batches" and (not isinstance(op[2], int) or op[2] < 1):
+            if k in ("batches", "biter") and (not isinstance(op[2], int) or isinstance(op[2], bool) or op[2] < 1):
                 return False
             if k in ("add", "zip") and (not isinstance(op[2], int) or not (0 <= op[2] < nres) or kinds[op[2]] != "frame"):
                 return False
@@ -572,13 +751,15 @@ def valid_case(c):
                 return False
             if k in ("row", "len") and not isinstance(op[2], int):
                 return False
-            if k == "next" and (not isinstance(op[2], int) or op[2] < 0):
+            if k == "fetch" and (not isinstance(op[2], int) or not (0 <= op[2] <= 2)):
+                return False
+            if k in ("next", "bnext") and (not isinstance(op[2], int) or op[2] < 0):
                 return False
             if k == "append" and (not isinstance(op[2], list) or len(op[2]) != w_of(c, op[1]) or typed_of[op[1]] or op[1] in has_iter):
                 return False
-            if k == "iter":
+            if k in ("iter", "biter"):
                 has_iter.add(op[1])
-            kinds.append("frame" if k in FRAME_OPS else ("iter" if k == "iter" else "val"))
+            kinds.append("frame" if k in FRAME_OPS else (k if k in ("iter", "biter") else "val"))
             typed_of.append(k in FRAME_OPS and k != "select" and typed_of[op[1]])
             nres += 1
         if c.get("order") not in (None, "fwd", "rev"):
@@ -620,7 +801,7 @@ def alias_probe(frames, mirror, plan):
                 now = [list(r) for r in dj]
             except Exception as e:
                 return "reading frame %d after an append to frame %d raised %s" % (j, i, type(e).__name__)
-            if now != listing[j]:
+            if strict(now) != strict(listing[j]):
                 if j == i:
                     return "append to frame %d did not add exactly that row at the end" % i
                 return "after a row was appended to frame %d, frame %d lists different rows (shared rows or stale iteration state)" % (i, j)
@@ -656,8 +837,18 @@ def check_case(ctx_or_none, case, want_state=False):
             except Exception as e:
                 clause = clause or "draining iterator %d raised %s" % (i, type(e).__name__)
                 continue
-            if rest != mir[1][mir[2]:]:
+            if strict(rest) != strict(mir[1][mir[2]:]):
                 clause = clause or "iterator %d does not yield the remaining rows of its frame once, in order" % i
+        for i, (out, mir) in enumerate(zip(frames, mirror)):
+            if out[0] != "biter" or mir[0] != "biter":
+                continue
+            try:
+                rest = out[1].pull(len(mir[1]) + 2)
+            except Exception as e:
+                clause = clause or "draining batching %d raised %s" % (i, type(e).__name__)
+                continue
+            if strict(rest) != strict(mir[1][mir[2]:]):
+                clause = clause or "batching %d does not yield the remaining batches of its frame (consumed next to other batchings / reads of the frame)" % i
 
     if how % 2 == 1:
         drain_iterators()
@@ -676,11 +867,11 @@ def check_case(ctx_or_none, case, want_state=False):
             continue
         if out[0] == "val":
             impl_summary[i] = ["val", out[1]]
-            if out[1] != mir[1]:
+            if strict(out[1]) != strict(mir[1]):
                 clause = clause or "step %d (%s) returned a different value than the list model" % (i, opn)
             continue
-        if out[0] == "iter":
-            impl_summary[i] = ["iter"]
+        if out[0] in ("iter", "biter"):
+            impl_summary[i] = [out[0]]
             continue
         impl_summary[i] = ["frame", "spent"]
     # the frames, in the order of the read plan (register order or its reverse): a read materialises the frame, and
@@ -697,7 +888,7 @@ def check_case(ctx_or_none, case, want_state=False):
             clause = clause or "reading frame %d raised %s" % (i, type(e).__name__)
             continue
         impl_summary[i] = ["frame", names, rows]
-        if rows != mir[3]:
+        if strict(rows) != strict(mir[3]):
             clause = clause or "frame %d (%s) lists different rows than the list model%s" % (
                 i, opn, " (read after an abandoned iteration)" if (how + i) % 4 == 3 else "")
         elif peek is not None:
@@ -709,13 +900,13 @@ def check_case(ctx_or_none, case, want_state=False):
         else:
             # reading twice yields the same rows again (each row once, in order)
             again = [list(r) for r in out[1]]
-            if again != rows:
+            if strict(again) != strict(rows):
                 clause = clause or "frame %d (%s) lists different rows when read again" % (i, opn)
     if how % 2 == 0:
         drain_iterators()
     for i, snap in snapshots.items():
         now = frames[i][1]._rows
-        if not isinstance(now, list) or [list(r) for r in now] != snap:
+        if not isinstance(now, list) or strict([list(r) for r in now]) != strict(snap):
             clause = clause or "materialised source frame %d was altered" % i
     if clause is None:
         clause = alias_probe(frames, mirror, set(plan))
@@ -764,10 +955,16 @@ def compare_model(case, mirror, mo, state=None, ctx=None):
     if not mach and ctx is not None:
         ctx.hit("state-machine:stopped (the program uses a frame the machine regards as spent)")
     for i, (m, mir) in enumerate(zip(spec, mirror)):
+        opn = case["ops"][i - 1][0] if i else "base"
         if m[0] == "frame":
-            ok = mir[0] == "frame" and m[1] == mir[1] and m[2] == mir[2] and m[3] == mir[3]
+            ok = mir[0] == "frame" and m[1] == mir[1] and m[2] == mir[2] and m[3] == canon(mir[3])
+        elif m[0] == "val" and opn == "bnext":
+            # the model's row iterator was asked for k * size rows: the batches the batching hands out, end to end
+            ok = mir[0] == "val" and m[1] == canon([r for b in mir[1] for r in b])
         elif m[0] == "val":
-            ok = mir[0] == "val" and m[1] == mir[1]
+            ok = mir[0] == "val" and m[1] == canon(mir[1])
+        elif m[0] == "iter" and mir[0] == "biter":
+            ok = m[1] == min(mir[2] * mir[3], mir[4])
         elif m[0] == "iter":
             ok = mir[0] == "iter" and m[1] == mir[2]
         else:
@@ -797,6 +994,15 @@ def compare_model(case, mirror, mo, state=None, ctx=None):
             else:
                 ctx.hit("machine-vs-tracker:agrees")
     return spec
+
+
+def _flat(v):
+    """A value with every container turned into a list (what a careless key makes of it)."""
+    if isinstance(v, (list, tuple)):
+        return [_flat(x) for x in v]
+    if isinstance(v, (set, frozenset)):
+        return sorted((_flat(x) for x in v), key=repr)
+    return v
 
 
 _REPORTED = set()
@@ -829,8 +1035,21 @@ def evaluate(ctx, cases):
         ctx.hit("rows:%d" % min(len(c["rows"]), 9))
         ctx.hit("cols:%d" % len(c["names"]))
         ctx.hit("backing:%s/schema:%s" % (lazy_of(c) or "list", schema_of(c)))
-        ctx.hit("cells:" + ("unhashable" if any(isinstance(x, list) for r in c["rows"] for x in r) else
-                            ("mixed" if any(not isinstance(x, int) or abs(x) > 2 for r in c["rows"] for x in r) else "small ints")))
+        kinds_ = {cell_kind(x) for r in c["rows"] for x in r}
+        ctx.hit("cells:" + ("containers next to look-alikes (list/tuple/dict/set/NaN/bool/float)" if kinds_ & {"tuple", "pydict", "pyset", "nan", "bool"} else
+                            "unhashable (lists)" if "list" in kinds_ else
+                            ("mixed scalars" if any(not isinstance(x, int) or abs(x) > 2 for r in c["rows"] for x in r) else "small ints")))
+        if any(op[0] == "distinct" for op in c["ops"]):
+            # rows of the base frame that are equal to an earlier row although they are not identical in type, and rows that
+            # differ from an earlier row only in the kind of a container
+            base = [[cell_py(x) for x in r] for r in c["rows"]]
+            eq_other = any(base[i] == base[j] and strict(base[i]) != strict(base[j]) for i in range(len(base)) for j in range(i))
+            alike = any(base[i] != base[j] and _flat(base[i]) == _flat(base[j]) for i in range(len(base)) for j in range(i))
+            ctx.hit("distinct-input:" + ("equal rows of different types" if eq_other else "rows that differ only in the kind of a container" if alike else "other"))
+        nb = sum(1 for op in c["ops"] if op[0] == "biter")
+        if nb:
+            srcs_ = [op[1] for op in c["ops"] if op[0] == "biter"]
+            ctx.hit("batchings:" + ("two or more open on one frame" if len(set(srcs_)) < len(srcs_) else "one per frame"))
         if clause is not None:
             norm = lambda s: None if s is None else "".join(ch for ch in s if not ch.isdigit())
             if norm(clause) in _REPORTED and not ctx.replaying:
@@ -856,14 +1075,20 @@ def evaluate(ctx, cases):
 
 ALL_OPS = ["head", "tail", "slice", "filter", "take", "query", "select", "distinct", "add",
            "batches", "collect", "row", "len", "tail", "slice", "select", "distinct", "append", "head",
-           "iter", "next", "next", "zip", "select", "hash"]
+           "iter", "next", "next", "zip", "select", "hash", "biter", "biter", "bnext", "bnext", "bnext", "fetch"]
 
 
 def gen_op(rng, kinds, names_of, nrows_of, allow=None, extra_names=(), prefer=None):
     """One operator applied to a random earlier frame (or `next` on an open iterator)."""
     srcs = [i for i, k in enumerate(kinds) if k == "frame"]
     its = [i for i, k in enumerate(kinds) if k == "iter"]
+    bits = [i for i, k in enumerate(kinds) if k == "biter"]
     k = rng.choice(allow or ALL_OPS)
+    if k == "bnext":
+        if not bits:
+            k = "biter"
+        else:
+            return ["bnext", rng.choice(bits), rng.choice([0, 1, 1, 1, 2, 50])]
     if k == "next":
         if not its:
             k = "iter"
@@ -939,6 +1164,11 @@ def gen_op(rng, kinds, names_of, nrows_of, allow=None, extra_names=(), prefer=No
         return [k, s, [rng.choice(VALUES) for _ in range(w)]]
     if k == "iter":
         return ["iter", s]
+    if k == "biter":
+        # often a second batching of a frame that is being batched already
+        return ["biter", s, max(1, rng.choice([1, 2, 3, n, n + 1, max(n // 2, 1)]))]
+    if k == "fetch":
+        return ["fetch", s, rng.randrange(3)]
     if k == "hash":
         return ["hash", s]
     return ["len", s, rng.randrange(3)]
@@ -956,6 +1186,23 @@ def track(kinds, names_of, nrows_of, case, op):
 
 
 UNHASHABLE = [0, [1], [1, 2], [], "a", [[1]], [1]]
+def _T(*xs):
+    return {"__tuple__": list(xs)}
+
+
+# cells that look alike: equal ones of different types (the first must be kept), unequal ones that a key built from
+# them (str / repr / tuple of the values / hash) would confuse, containers that cannot be hashed, the NaN object
+ALIKE_GROUPS = [
+    [1, True, 1.0, "1"],
+    [0, False, -0.0, None],
+    [[1, 2], _T(1, 2), [1, 2.0], _T(1, 2)],
+    [[[1], 2], [_T(1), 2], _T([1], 2), [[1], 2]],
+    [{"__pydict__": {"a": 1}}, {"__pydict__": {"a": True}}, {"__pydict__": {"a": 1, "b": 2}}, {"__pydict__": {"b": 2, "a": 1}}, [["a", 1]]],
+    [{"__pyset__": [1, 2]}, _T(1, 2), [1, 2], {"__pyset__": [1]}],
+    [{"__nan__": True}, 2.5, {"__nan__": True}, None],
+    [[], _T(), "", 0],
+    [-1, -2, _T(-1), _T(-2), [-1]],
+]
 VALUES = [0, 1, -1, -2]  # -1 and -2 have equal hashes in CPython: rows that collide without being equal
 ALIAS_POOL = ["a0", "a1", "A", "pts", "c0x"]
 
@@ -996,7 +1243,13 @@ def gen_case(rng, max_rows=6, max_cols=4, max_ops=4, big=False):
     r_ = rng.random()
     # mostly the hash-colliding ints; sometimes mixed scalars (0 and 2**61-1 collide too); sometimes cells that
     # cannot be hashed (lists: what ARRAY columns hold) next to equal-looking hashable ones
-    vals = VALUES if r_ < 0.75 else ([0, 2**61 - 1, "a", "b", None, 2.5] if r_ < 0.88 else UNHASHABLE)
+    vals = VALUES if r_ < 0.70 else ([0, 2**61 - 1, "a", "b", None, 2.5] if r_ < 0.78 else (UNHASHABLE if r_ < 0.86 else None))
+    force_distinct = False
+    if vals is None:
+        vals = list(rng.choice(ALIKE_GROUPS)) + (["k"] if rng.random() < 0.5 else [])
+        if rng.random() < 0.7:
+            w = rng.choice([1, 1, 2])
+        force_distinct = rng.random() < 0.6
     if w == 0:
         n = rng.choice([0, 0, 1, 2])
     rows = [[rng.choice(vals) for _ in range(w)] for _ in range(n)]
@@ -1012,6 +1265,12 @@ def gen_case(rng, max_rows=6, max_cols=4, max_ops=4, big=False):
     trk = Track(base_is_lazy(case))
     typed_of = [kind_of(case) == "typed"]
     has_iter = set()
+    if force_distinct:
+        op = ["distinct", 0]
+        track(kinds, names_of, nrows_of, case, op)
+        trk.step(op, kinds[-1], typed_of, has_iter)
+        typed_of.append(typed_of[0])
+        case["ops"].append(op)
     for _ in range(rng.randint(1, max_ops)):
         for _try in range(8):
             # now and then a second operator on a frame that already has an unread selection / filter (siblings)
@@ -1026,7 +1285,7 @@ def gen_case(rng, max_rows=6, max_cols=4, max_ops=4, big=False):
         track(kinds, names_of, nrows_of, case, op)
         trk.step(op, kinds[-1], typed_of, has_iter)
         typed_of.append(op[0] in FRAME_OPS and op[0] != "select" and typed_of[op[1]])
-        if op[0] == "iter":
+        if op[0] in ("iter", "biter"):
             has_iter.add(op[1])
         case["ops"].append(op)
     return case
@@ -1142,6 +1401,54 @@ def exhaustive_small(ctx):
                     count += 1
 
 
+def alike_small():
+    """distinct (alone, after +, after select, twice) on every frame of <= 3 rows ("k", v) with v from one group of
+    look-alike cells; interleaved batchings of one frame."""
+    count = 0
+    for group in ALIKE_GROUPS:
+        for n in range(0, 4):
+            for vs in itertools.product(group, repeat=n):
+                rows = [["k", v] for v in vs]
+                for ops in ([["distinct", 0]], [["add", 0, 0], ["distinct", 1]], [["select", 0, ["c1"]], ["distinct", 1], ["distinct", 2]]):
+                    for lazy, schema in ((False, "list"), ("gen", "list"), (False, "dicts")):
+                        if schema == "dicts" and not rows:
+                            continue
+                        yield {"names": ["c0", "c1"], "schema": schema, "lazy": lazy, "rows": rows, "ops": ops, "read": count % 4}
+                        count += 1
+
+
+def batchings_small():
+    """Two batchings of one frame advanced in every small interleaving; a nested loop; DB-API reads in between."""
+    count = 0
+    for n in range(0, 6):
+        rows = [[i, -i] for i in range(n)]
+        progs = []
+        for b1 in (1, 2, 3):
+            for b2 in (1, 2, n + 1):
+                for k1 in (0, 1, 2):
+                    for k2 in (0, 1, 9):
+                        progs.append([["biter", 0, b1], ["biter", 0, b2], ["bnext", 1, k1], ["bnext", 2, k2], ["bnext", 1, 1], ["bnext", 2, 1]])
+                        progs.append([["biter", 0, b1], ["bnext", 1, k1], ["biter", 0, b2], ["bnext", 3, k2], ["bnext", 1, 1], ["bnext", 3, 9], ["bnext", 1, 9]])
+                # nested loop: for every outer batch, all inner batches
+                nest = [["biter", 0, b1]]
+                for _ in range(3):
+                    nest.append(["bnext", 1, 1])
+                    nest.append(["biter", 0, b2])
+                    nest.append(["bnext", len(nest), 99])
+                progs.append(nest)
+            for f in (0, 1, 2):
+                progs.append([["biter", 0, b1], ["bnext", 1, 1], ["fetch", 0, f], ["bnext", 1, 1], ["fetch", 0, f], ["bnext", 1, 9]])
+                progs.append([["fetch", 0, f], ["batches", 0, b1], ["fetch", 0, f], ["iter", 0], ["fetch", 0, f], ["next", 4, 9]])
+            progs.append([["biter", 0, b1], ["bnext", 1, 1], ["batches", 0, 2], ["iter", 0], ["next", 4, 1], ["bnext", 1, 9], ["next", 4, 9]])
+            progs.append([["head", 0, 4], ["biter", 1, b1], ["biter", 0, b1], ["bnext", 2, 1], ["bnext", 3, 1], ["bnext", 2, 9], ["bnext", 3, 9]])
+        for prog in progs:
+            for lazy in (False, "gen"):
+                c = {"names": ["c0", "c1"], "schema": "list", "lazy": lazy, "rows": rows, "ops": prog, "read": count % 4}
+                count += 1
+                if valid_case(c):
+                    yield c
+
+
 def run(ctx):
     ctx.note("rule", "programs of DataFrame operators over small frames; non-trivial = at least one row and one operator; "
              "distinct by canonical JSON of (frame, program)")
@@ -1173,6 +1480,22 @@ def run(ctx):
              "rows; schema given as list, tuple, RelationSchema with and without aliases, dictionaries; list-, generator-, "
              "iterator-, map-backed (%d cases%s); then random programs"
              % (3, n_ex, "; of the 3-row cases every third" if ctx.tier == "quick" else ""))
+    n_al = 0
+    batch = []
+    for c in alike_small():
+        n_al += 1
+        if ctx.tier == "quick" and len(c["rows"]) == 3 and n_al % 2:
+            continue
+        batch.append(c)
+    evaluate(ctx, batch)
+    batch = list(batchings_small())
+    evaluate(ctx, batch)
+    ctx.note("lookalike_scope", "distinct (alone, after +, after select and twice) on every frame of 0..3 rows ('k', v), v from one of %d "
+             "groups of cells that look alike (1/True/1.0/'1'; 0/False/-0.0/None; list vs tuple of the same values, nested; dicts in "
+             "either key order and with equal values of different types; set vs tuple vs list; the NaN object; empty containers; "
+             "hash-colliding -1/-2 inside tuples); results compared type by type (%d cases); every small interleaving of two "
+             "batchings of one frame, nested batchings, DB-API reads (fetchone/fetchmany/fetchall) between batches (%d cases)"
+             % (len(ALIKE_GROUPS), n_al, len(batch)))
     n_random = ctx.scale(30000, 300000)
     depth = ctx.scale(5, 7)
     done = 0
